@@ -144,7 +144,7 @@ func monitorRetry(c schedCase, r *result, stopped bool) []string {
 				blocked = true
 			}
 		}
-		if allLic && starts[i] == 0 && !(final.St[i] == "skipped" && c.Nodes[i].Pre == 2) && !c.Dry {
+		if allLic && starts[i] == 0 && !(final.St[i] == "skipped" && preUnmet(c.Nodes[i])) && !c.Dry {
 			add("C10:unfinished-step-not-reexecuted:node=%d recorded=%s now=%s", i, c.Init[i], final.St[i])
 		}
 		if blocked && starts[i] != 0 {
